@@ -57,9 +57,9 @@ def check_mutator(ctx, chk, L, name):
                     chk.fail("L1", key + ":" + role, site,
                              "%s counter delta is %r but the queue delta is %r (%s)" % (role, d[role], q[role], why), describe_path(r))
             # L2
-            takes = [k for k, _, _ in qev if k in ("take", "take?")]
+            takes = [k for k, _, _ in qev if k in ("take", "take?", "rtake")]
             misses = [k for k, _, _ in qev if k == "miss"]
-            pushes = [k for k, _, _ in qev if k in ("push", "park")]
+            pushes = [k for k, _, _ in qev if k in ("push", "park", "rpush")]
             if misses and not takes and not pushes:
                 ups = [c for c in cev if c[1] != "load"]
                 chk.require(not ups, "L2", "%s:%s" % (fn, arm), site,
@@ -73,7 +73,7 @@ def check_mutator(ctx, chk, L, name):
                     chk.require(bad is None, "L3", "%s:%s:%s:from-load" % (fn, role, op), e[5],
                                 "operand %s is computed from an atomic load" % short(operand), describe_path(r))
             # L6 bounded decrements
-            taken = [o for k, o, _ in qev if k == "take"]
+            taken = [o for k, o, _ in qev if k in ("take", "rtake")]
             for role, op, operand, e in cev:
                 if op != "fetch_sub":
                     continue
@@ -482,6 +482,8 @@ def run(ctx, chk):
                 chk.require(v["name"] in seen, "L0", "update_order:arm:%s" % v["name"], "", "OrderUpdate::%s is not analysed" % v["name"])
     from ..lvlrules import rule_unanalysed_writers
     rule_unanalysed_writers(ctx, chk, L, "L0")
+    from ..lvlrules import rule_inplace_same_id
+    rule_inplace_same_id(ctx, chk, L, "L0")
     check_constructors(ctx, chk, L)
     rule_readd_every_element(ctx, chk, "L4")
     from ..queue import QueueAnalysis
